@@ -8,6 +8,7 @@ import DesyncModel.FactSyncFuture
 import DesyncModel.Lemmas
 import DesyncModel.Setters
 import DesyncModel.Inv.DrainReach
+import DesyncModel.Inv.SlotReach
 
 namespace Desync.C08
 open Desync Gen
@@ -78,5 +79,14 @@ theorem cancelled_poller_is_draining {s : State} (hr : Reachable s) {q f : Nat} 
     (hv : s.qs[q]? = some v) (hst : v.state = .waitingForPoll f) :
     ∃ fu, s.futs[f]? = some fu ∧ fu.draining = true ∧ fu.q = q :=
   designated_poller_is_draining hr hv hst
+
+/-- **The operation of `future_sync` runs only inside its slot in the queue order** (the start half, for every reachable state):
+if the user operation of a sync-future has been begun, a slot job of that sync-future has been begun, and every operation
+accepted on the object before that slot job has ended.  (`SlotInv`: `userBegun → readySent → slot job begun`, inductive over all
+program counters, with `JobMono` — no step removes a job, changes its kind or resets `begun` — and C02.) -/
+theorem operation_starts_in_its_slot {s : State} (hr : Reachable s) {u : Nat} {sf : SyncFut} (hu : s.sfs[u]? = some sf) (hb : sf.userBegun = true) :
+    ∃ (j : Nat) (jb : Job) (r : Nat), s.jobs[j]? = some jb ∧ jb.kind = JobKind.slot u r ∧ jb.begun = true ∧
+      ∀ (j1 : Nat) (b1 : Job), s.jobs[j1]? = some b1 → b1.q = jb.q → j1 < j → b1.ended = true :=
+  future_sync_starts_in_its_slot hr hu hb
 
 end Desync.C08
